@@ -343,6 +343,10 @@ func (chain *blockChain) validateGroupSig(bh *types.BlockHeader) (bool, error) {
 
 func (chain *blockChain) removeFromCommonAncestor(commonAncestor *types.BlockHeader) {
 	logger.Debugf("removeFromCommonAncestor hash:%s height:%d latestheight:%d", commonAncestor.Hash.Hex(), commonAncestor.Height, chain.latestBlock.Height)
+	if chain.latestBlock.Height > commonAncestor.Height {
+		chain.markReorg(commonAncestor.Height)
+		defer chain.eraseReorgMark()
+	}
 	for height := chain.latestBlock.Height; height > commonAncestor.Height; height-- {
 		header := chain.QueryBlockHeaderByHeight(height, true)
 		if header == nil {
